@@ -930,9 +930,12 @@ class Sequence:
 
                 else:
                     arrays = element._data[chan]["array"]
+                    # pad at the rate the arrays are sampled at, as
+                    # Element._applyDelays (used by forge) does
+                    arr_SR = element._data[chan]["SR"]
                     for name, arr in arrays.items():
-                        pre_wait = np.zeros(int(round(delay * self.SR)))
-                        post_wait = np.zeros(int(round((maxdelay - delay) * self.SR)))
+                        pre_wait = np.zeros(int(round(delay * arr_SR)))
+                        post_wait = np.zeros(int(round((maxdelay - delay) * arr_SR)))
                         arrays[name] = np.concatenate((pre_wait, arr, post_wait))
 
         # Now forge all the elements as specified
